@@ -19,7 +19,10 @@ func TestRacePass(t *testing.T) {
 	if tier() == "thorough" {
 		seeds = 10
 	}
-	bodies := []string{"TestRace_MuxBroker", "TestRace_GRPCBroker", "TestRace_Client", "TestRace_ClientDeadMux"}
+	bodies := []string{"TestRace_MuxBroker", "TestRace_GRPCBroker", "TestRace_Client", "TestRace_ClientDeadMux", "TestRace_MuxBrokerUnmatched"}
+	if v := os.Getenv("VERIF_RACE_BODIES"); v != "" { // a check that wants only some of the bodies
+		bodies = strings.Split(v, ",")
+	}
 	out := &enumResult{Exhaustive: false, Outcomes: map[string]int{}}
 	out.Notes = append(out.Notes, "race detector pass: exhaustive over the listed operation groups, not over schedules")
 	seen := map[string]bool{}
